@@ -276,6 +276,16 @@ pub fn execute(s: &ForScn, ctx: &mut Ctx) {
                 if n > 0 {
                     crate::fam_rt::check_c06(ctx, s.ty, &shp, n, s.rstack, &s.rplan);
                 }
+                // the shapes as read (they can hold what no constructor builds: empty parts, one-point
+                // lines, zero parts) written back with the library's own writer
+                if n > 0 {
+                    let world = mk();
+                    if let Open::Ok(r) = open(&world, false, s.rstack) {
+                        if let Ok(Ok(shapes)) = read_generic_shapes(r) {
+                            rewrite_route(ctx, s, &shapes, &site);
+                        }
+                    }
+                }
             }
         }
     }
@@ -307,6 +317,39 @@ pub fn execute(s: &ForScn, ctx: &mut Ctx) {
                     check_items(ctx, "C03", "split-iteration", &all, capped, s, &site);
                 }
                 Err(p) => ctx.fail("C03", "panic", p.site(), format!("split iteration: {}", p.text())),
+            }
+        }
+        ctx.stats.absorb_world(&world.borrow());
+    }
+
+    // ---- C03 with the index: all but the last two records through next(), the next one asked for as
+    // another type (an error; the source is then somewhere inside that record), and the remaining
+    // single record through Iterator::last()
+    if layout_plain && n >= 2 && s.ty != 0 && !has_null {
+        let world = mk();
+        if let Open::Ok(mut r) = open(&world, true, s.rstack) {
+            let other = if s.ty == 31 { 1 } else { 31 };
+            let res = guarded(|| {
+                {
+                    let mut it = r.iter_shapes();
+                    for _ in 0..n - 2 {
+                        let _ = it.next();
+                    }
+                }
+                // exactly one item of a typed iteration of another type: an error, one entry consumed
+                crate::on_type!(other, S => { let _ = r.iter_shapes_as::<S>().next(); }, ());
+                r.iter_shapes().last().map(|x| x.map(|s| capture(&s)).map_err(|e| classify(&e)))
+            });
+            match res {
+                Ok(Some(item)) => {
+                    let rec = &s.recs[n - 1];
+                    match &item {
+                        Ok(g) if diff_foreign(&expected_of(rec), rec.m_present, g).is_none() => {}
+                        _ => ctx.fail("C03", "same-geometry", format!("last-after-refused-typed-read:{}", site), format!("after {} records and a refused typed read, iter_shapes().last() = {} instead of record {} ({})", n - 2, item_short(&item), n - 1, rec.geom.short())),
+                    }
+                }
+                Ok(None) => ctx.fail("C03", "count", format!("last-after-refused-typed-read:{}", site), format!("after {} records and a refused typed read, iter_shapes().last() = None with {} records", n - 2, n)),
+                Err(p) => ctx.fail("C03", "panic", p.site(), format!("last after a refused typed read: {}", p.text())),
             }
         }
         ctx.stats.absorb_world(&world.borrow());
@@ -364,6 +407,24 @@ pub fn execute(s: &ForScn, ctx: &mut Ctx) {
         Open::Panic(p) => ctx.fail("C14", "panic", p.site(), format!("with_shx: {}", p.text())),
     }
     ctx.stats.absorb_world(&world.borrow());
+    if n >= 1 {
+        // Iterator::last() on a fresh indexed reader: the record of the last entry, wherever it is stored
+        let world = mk();
+        if let Open::Ok(mut r) = open(&world, true, s.rstack) {
+            match guarded(|| r.iter_shapes().last().map(|x| x.map(|s| capture(&s)).map_err(|e| classify(&e)))) {
+                Ok(Some(item)) => {
+                    let rec = &s.recs[n - 1];
+                    match &item {
+                        Ok(g) if diff_foreign(&expected_of(rec), rec.m_present, g).is_none() => {}
+                        _ => ctx.fail("C14", "same-geometry", format!("last:{}", lsite), format!("iter_shapes().last() = {} instead of the record of the last entry ({})", item_short(&item), rec.geom.short())),
+                    }
+                }
+                Ok(None) => ctx.fail("C14", "count", format!("last:{}", lsite), format!("iter_shapes().last() = None with {} entries", n)),
+                Err(p) => ctx.fail("C14", "panic", p.site(), format!("last: {}", p.text())),
+            }
+        }
+        ctx.stats.absorb_world(&world.borrow());
+    }
     if permuted {
         ctx.stats.reach("physical-order-permuted");
     }
@@ -384,6 +445,93 @@ pub fn execute(s: &ForScn, ctx: &mut Ctx) {
     // the .shx lying next to the .shp is "supplied" to every by-path entry point
     if n > 0 && crate::prng::fnv_str(&sig) % 4 == 0 {
         by_path(ctx, s, &shp, &shx, has_null, lsite);
+    }
+}
+
+/// Read-then-rewrite: every shape decoded from the foreign file goes through `ShapeWriter`.
+/// C18: the size it announces is what `write_to` emits and what the record header stores;
+/// C04: the index addresses the records, found by walking the stored lengths; the rewritten
+/// file reads back (with and without index) as the same shapes.
+fn rewrite_route(ctx: &mut Ctx, s: &ForScn, shapes: &[shapefile::Shape], site: &str) {
+    use crate::on_shape;
+    use shapefile::record::WritableShape;
+    let mut announced: Vec<usize> = Vec::new();
+    for (i, sh) in shapes.iter().enumerate() {
+        let (ann, emitted) = on_shape!(sh, c => {
+            let mut v: Vec<u8> = Vec::new();
+            let r = c.write_to(&mut v);
+            (c.size_in_bytes(), r.map(|_| v.len()).map_err(|e| classify(&e)))
+        }, (0, Ok(0)));
+        if emitted != Ok(ann) {
+            ctx.fail("C18", "write_to-length", format!("reread:{}", type_name(s.ty)), format!("shape {} as read from a foreign file ({}): size_in_bytes() = {} but write_to emitted {:?}", i, capture(sh).short(), ann, emitted));
+        }
+        announced.push(ann);
+    }
+    let world = World::new(Plan::default());
+    let r = guarded(|| -> Result<(), shapefile::Error> {
+        let mut w = shapefile::ShapeWriter::with_shx(Stack::writer(&world, SHP, StackCfg::Direct), Stack::writer(&world, SHX, StackCfg::Direct));
+        for sh in shapes {
+            on_shape!(sh, c => w.write_shape(c)?, ());
+        }
+        w.finalize()
+    });
+    match r {
+        Ok(Ok(())) => {}
+        Ok(Err(e)) => {
+            ctx.fail("C04", "rewrite", site.to_string(), format!("writing back the shapes read from a foreign file failed: {:?}", classify(&e)));
+            return;
+        }
+        Err(p) => {
+            ctx.fail("C04", "panic", p.site(), format!("writing back the shapes read from a foreign file: {}", p.text()));
+            return;
+        }
+    }
+    ctx.stats.reach("foreign-shapes-written-back");
+    let (shp, shx) = {
+        let wb = world.borrow();
+        (wb.data(SHP).to_vec(), wb.data(SHX).to_vec())
+    };
+    // walk the records by their stored lengths
+    let be = |b: &[u8], o: usize| i32::from_be_bytes([b[o], b[o + 1], b[o + 2], b[o + 3]]);
+    let mut o = 100usize;
+    let mut k = 0usize;
+    while o + 8 <= shp.len() && k < announced.len() {
+        let words = be(&shp, o + 4);
+        if words as i64 != ((announced[k] + 4) / 2) as i64 {
+            ctx.fail("C18", "content-length-field", format!("reread:{}", type_name(s.ty)), format!("record {} of the rewritten file stores {} content words for an announced size of {} bytes", k + 1, words, announced[k]));
+            return;
+        }
+        if shx.len() >= 100 + 8 * (k + 1) {
+            let (eo, el) = (be(&shx, 100 + 8 * k), be(&shx, 104 + 8 * k));
+            if eo as i64 * 2 != o as i64 || el != words {
+                ctx.fail("C04", "index-bytes", site.to_string(), format!("rewritten file: index entry {} = ({}, {}) but record {} starts at word {} with {} content words", k, eo, el, k, o / 2, words));
+                return;
+            }
+        }
+        o += 8 + 2 * words as usize;
+        k += 1;
+    }
+    if k != announced.len() || o != shp.len() || be(&shp, 24) as i64 * 2 != shp.len() as i64 || shx.len() != 100 + 8 * k || be(&shx, 24) as usize != 50 + 4 * k {
+        ctx.fail("C04", "index-bytes", site.to_string(), format!("rewritten file: {} records walked to offset {} of {} bytes (header says {} words), index of {} bytes (header says {} words) for {} shapes", k, o, shp.len(), be(&shp, 24), shx.len(), be(&shx, 24), announced.len()));
+        return;
+    }
+    // and it reads back as what was read the first time
+    let first: Vec<Geom> = shapes.iter().map(capture).collect();
+    for with_index in [false, true] {
+        let w2 = World::with_data(Plan::default(), shp.clone(), shx.clone(), vec![]);
+        match open(&w2, with_index, StackCfg::Direct) {
+            Open::Ok(mut r) => match iter_generic(&mut r, shapes.len() + 4) {
+                Ok((items, _)) => {
+                    let same = items.len() == first.len() && items.iter().zip(first.iter()).all(|(a, b)| matches!(a, Ok(g) if diff(&b.normalised_for_read(), g, b.ty == 31, false).is_none()));
+                    if !same {
+                        ctx.fail("C04", "rewritten-file-reads-back", format!("{}:{}", if with_index { "shx" } else { "noshx" }, site), format!("the rewritten file reads back as {:?} instead of {:?}", items.iter().map(item_short).collect::<Vec<_>>(), first.iter().map(|g| g.short()).collect::<Vec<_>>()));
+                    }
+                }
+                Err(p) => ctx.fail("C04", "panic", p.site(), format!("reading the rewritten file: {}", p.text())),
+            },
+            Open::Err(e) => ctx.fail("C04", "rewritten-file-reads-back", site.to_string(), format!("the rewritten file cannot be opened: {:?}", e)),
+            Open::Panic(p) => ctx.fail("C04", "panic", p.site(), p.text()),
+        }
     }
 }
 
